@@ -33,7 +33,7 @@ ASSUMPTIONS = [
 FEATURES = ['sibling_prefix', 'outside_tree', 'link_in_out_file', 'link_in_out_dir', 'link_in_in',
             'link_out_in_dir', 'chain', 'dangling', 'ext_only_link', 'dir_beside_tex', 'latex_ext',
             'nested_include', 'link_to_base', 'deep_base', 'abs_links', 'dir_tex_link', 'base_dot_tex',
-            'case_sibling', 'dot_links', 'out_link_to_nest', 'dotdot_names']
+            'case_sibling', 'dot_links', 'out_link_to_nest', 'dotdot_names', 'odd_names']
 PERSISTENT_FEATURES = ['loop', 'unreadable_file', 'unsearchable_dir', 'non_utf8', 'long_name', 'long_chain']
 
 
@@ -182,6 +182,18 @@ def gen_layout(rng, batch):
         b.l(base + '/alias.tex', '..appendix.tex')
         if rng.random() < 0.5:
             outs.append(b.f(parent + '/..appendix.tex') and parent + '/..appendix.tex')
+    if 'odd_names' in feats:
+        # legal but unusual names: spaces, non-ASCII, hidden, several extensions, extension-only,
+        # a directory that looks like a file and a file that looks like an extension
+        for n in rng.sample(['sp ace.tex', 'uni-\u00e9\u00df.tex', '.hidden.tex', 'a.b.tex', 'x.tex.tex', '.tex',
+                             'tex', 'latex', 'q.latex.tex', 'TeX.TEX', 'tab\there.tex', '-dash.tex', '~tilde.tex'],
+                            rng.randint(3, 6)):
+            b.f(base + '/' + n)
+        b.d(base + '/d.tex')
+        b.f(base + '/d.tex/inner.tex')
+        b.l(base + '/sp link.tex', tgt(base, rng.choice(outs)))
+        b.l(base + '/uni-\u00fc.latex', tgt(base, rng.choice(outs)))
+        outs.append(b.f(out + '/sp ace.tex') and out + '/sp ace.tex')
     if 'dir_tex_link' in feats:
         # a directory beside a link of the same name plus extension, pointing outside
         b.d(base + '/chap')
